@@ -57,6 +57,10 @@ def stepD (d : DSt) : List String → DSt × String
     match n.toNat?, nest.toNat? with
     | some n, some k => (schedMany (SCfg.reference d.workers) d (n * (1 + k)), "ok")
     | _, _ => (d, "bad-op")
+  | ["sched_dtor", n] =>   -- n closures whose destruction schedules n follow-ups: 2n tasks
+    match n.toNat? with
+    | some n => (schedMany (SCfg.reference d.workers) d (2 * n), "ok")
+    | none => (d, "bad-op")
   | ["sched_lv", n] =>   -- n named closures, each handed to schedule() twice: 2n tasks
     match n.toNat? with
     | some n => (schedMany (SCfg.reference d.workers) d (2 * n), "ok")
